@@ -35,6 +35,7 @@ fn main() {
     let ex = "exploration";
     let (level, f): (&str, Box<dyn Fn(&ev::Run)>) = match id {
         "C01" => (mc, Box::new(|r| checks::codec::run(r, Mode::C01))),
+        "C02" => (mc, Box::new(|r| checks::c02::run(r))),
         "C03" => (ex, Box::new(|r| checks::c03::run(r))),
         "C04" => (ex, Box::new(|r| checks::amf0::run_c04(r))),
         "C05" => (mc, Box::new(|r| checks::c05::run(r))),
